@@ -27,6 +27,16 @@ import z3
 import crosshair.core_and_libs  # noqa: F401  (registers patches)
 from crosshair.condition_parser import condition_parser
 from crosshair.core import Patched, deep_realize, proxy_for_type
+import crosshair.core as _chcore
+
+# CrossHair replaces the ``dict(...)`` constructor by a ShellMutableMap over a
+# SimpleDict.  Measured (0.0.110): that map does not keep Python's insertion
+# order when a key is deleted and inserted again (the key returns to its old
+# position), so code under test that relies on dict order - Allocation.apps and
+# the stable sort over it - ran with a different order than the real
+# interpreter.  The harnesses never put symbolic keys into dictionaries (hashed
+# attributes are choices), so the real constructor is used instead.
+_chcore._PATCH_REGISTRATIONS.pop(dict, None)
 from crosshair.libimpl.builtinslib import SymbolicBool, SymbolicInt
 from crosshair.options import AnalysisKind
 from crosshair.statespace import (
